@@ -6,7 +6,16 @@ atoms_rings / atoms_rings_sizes / aromatic_rings / calc_labels` and compared wit
 
 Which graph: `rings_count`, `sssr` and all ring marks are defined on the bond graph WITHOUT coordinate bonds (order 8);
 `connected_components` is defined by the code on the graph WITH every bond, coordinate bonds included (rings.py:
-`_connected_components(self._bonds)`), and is checked against that graph.
+`_connected_components(self._bonds)`), and is checked against that graph; so are `skin_graph` (2-core) and `rings_graph`.
+
+Coverage audit (2026-10-02): besides molecules built with the private `_skip_calculation` flags and read once, the domain now holds
+molecules built through the incremental PUBLIC API and edited afterwards (bounded/d06_extra.py): every observable is read before AND
+after add / delete of atoms and bonds (coordinate bonds included), inside transactions (marks are deferred there, everything else is
+judged), after commit and after rollback, after remap / copy(keep_*) / union / substructure / split / flush_cache(keep_*), after the
+standardize-family calls that choose themselves which ring caches survive, and after pack() / unpack(); atom numbers with gaps, offsets
+beyond 999 / 4095 and up to 10^6; the empty molecule.  Marks kept across `remap` / `union` (the library does not recalculate them) are
+judged against the ring set reported afterwards: where that set legitimately depends on the numbering (more relevant cycles than basis
+members - oracles/o06_unique.py - or a recorded gap) the failure carries the family key `<contract>@<op>:numbering-dependent-sssr`.
 """
 import hashlib
 from collections import Counter
@@ -23,6 +32,7 @@ RULE = ('bounded: every contract of C06 evaluated natively on each labelled mole
 # views, aromatic rings, rings_count, components, no exception) stays enforced inside the gaps.
 EXCUSED = ('sssr-independent', 'sssr-minimal', 'sssr-size-multiset', 'sssr-sizes-numbering')
 BASIS_THEOREMS = ('atom-in_ring-oracle', 'bond-in_ring-oracle')
+_RAISED = object()   # marker: reading the observable raised
 MAX_REPORT = 25      # new violations listed per contract
 ITEM_BUDGET_S = 60   # watchdog per work item (a normal item takes < 2 s); after a first timeout in a worker: 5 s, after five: skip
 _TIMEOUTS = [0]      # per worker process
@@ -33,6 +43,15 @@ FIXED_GAP_A = ([117, 114, 110, 108, 115, 111, 105, 102, 103, 116, 104, 109, 112,
                [(115, 102, 1), (102, 104, 1), (112, 114, 1), (113, 117, 1), (103, 115, 1), (118, 113, 1), (105, 108, 1), (118, 109, 1),
                 (106, 107, 1), (103, 104, 1), (105, 116, 1), (114, 107, 1), (117, 101, 1), (118, 106, 1), (102, 110, 1), (112, 111, 1),
                 (110, 108, 1), (116, 109, 1), (102, 112, 1), (108, 118, 1), (101, 115, 1)])
+
+
+# ring systems on which a standardization rule changes a ring bond to / from order 8, or a salt / metal / hydrogen function edits atoms
+STD_RING_INPUTS = (
+    'CB1CCCC[N+]1(C)C', 'CB1CCCCN1=C', '[H]1B(C)(C)[H]B1(C)C', 'CB1CCCC[S+]1C', 'CB1CCCCO1C', 'C1CCB2(CC1)N(C)(C)CCO2',
+    '[Fe]=C1N(C)C=CN1C', 'N#C[Fe]C1CC1', 'N#CO[Cu]C1CCC1', 'C1CC[N+]2(CC1)[B-](F)(F)OC2', 'c1ccc2c(c1)O[Na]2', 'C1CCC(CC1)C(=O)O[Na]',
+    'C1CC1C(=O)O[K].[Na+].[Cl-]', 'O=C1O[Mg]OC(=O)C1', 'C1CC1[Li]', '[H]C1([H])CC1([H])C', 'c1ccccc1.Cl', 'C1CCNCC1.OC(=O)C(F)(F)F',
+    'C1=CC=CC=C1.[Na+].N', 'O=[N+]([O-])c1ccc2ccccc2c1', 'C1CC2CCC1N2[Cu]', 'C1CC2CCC1[N+]2(C)[B-](C)(C)C', '[O-][n+]1ccccc1C1CC1',
+)
 
 
 def _split(fails, gap):
@@ -63,8 +82,9 @@ def _labelled(nodes, edges, r, identity=False):
     if identity:
         perm = {v: i + 1 for i, v in enumerate(nodes)}
         return [perm[v] for v in nodes], [(perm[a], perm[b], o) for a, b, o in edges], perm
-    tgt = list(range(1, len(nodes) + 1))
-    off = r.choice((0, 0, 7, 100))
+    step = r.choice((1, 1, 1, 2, 5))      # gaps between the numbers
+    tgt = list(range(1, step * len(nodes) + 1, step))
+    off = r.choice((0, 0, 7, 100, 995, 4090, 10 ** 6))
     r.shuffle(tgt)
     perm = {v: t + off for v, t in zip(nodes, tgt)}
     ns = nodes[:]
@@ -80,9 +100,10 @@ def _estr(edges):
 
 # ---------------------------------------------------------------------------------------------------------------------------------
 # the contracts
-def evaluate(m, exp_sizes=None, recalc=True):
+def evaluate(m, exp_sizes=None, recalc=True, marks=True):
     """evaluate every C06 contract on molecule m.  Returns (failures, sizes) with failures = [(contract, what, native)];
-    sizes = sorted ring sizes reported by the library (None if sssr raised)."""
+    sizes = sorted ring sizes reported by the library (None if sssr raised).  recalc: call calc_labels() before the marks are read
+    (else: marks as found); marks=False: the marks are not judged (inside a transaction the library defers them)."""
     import networkx as nx
     from oracles.cycles import gf2_rank, ring_vector
     from oracles import o06_gaps as O
@@ -90,22 +111,45 @@ def evaluate(m, exp_sizes=None, recalc=True):
     fails = []
     mu = O.cyclomatic(g0)
 
-    nsc = m.not_special_connectivity
-    if set(nsc) != set(g0) or any(set(nsc[n]) != set(g0[n]) for n in g0):
+    def read(name):
+        """value of a public observable; an exception raised by the library where the property says 'returns' is a failed contract"""
+        try:
+            return getattr(m, name)
+        except Exception as e:
+            fails.append((f'{name}-raises' if name != 'sssr' else 'sssr-raises', f'{name} raised {type(e).__name__}: {e}', repr(e)))
+            return _RAISED
+
+    nsc = read('not_special_connectivity')
+    if nsc is _RAISED:
+        pass
+    elif set(nsc) != set(g0) or any(set(nsc[n]) != set(g0[n]) for n in g0):
         fails.append(('not_special_connectivity', 'adjacency without coordinate bonds differs from the bond table',
                       {n: sorted(v) for n, v in nsc.items()}))
-    rc = m.rings_count
-    if rc != mu:
+    rc = read('rings_count')
+    if rc is not _RAISED and rc != mu:
         fails.append(('rings_count', f'rings_count {rc} != bonds - atoms + components = {mu} (coordinate bonds ignored)', rc))
-    cc = m.connected_components
+    cc = read('connected_components')
     want = {frozenset(c) for c in nx.connected_components(gall)}
-    if Counter(frozenset(c) for c in cc) != Counter(want) or m.connected_components_count != len(want):
+    if cc is not _RAISED and (Counter(frozenset(c) for c in cc) != Counter(want) or m.connected_components_count != len(want)):
         fails.append(('connected_components', 'components differ from the components of the full bond graph', [sorted(c) for c in cc]))
+    # pruning of acyclic parts, public views (both defined by the code on the graph WITH coordinate bonds: `_skin_graph(self._bonds)`)
+    sk = read('skin_graph')
+    core = nx.k_core(gall, 2) if gall.number_of_nodes() else gall
+    if sk is _RAISED:
+        pass
+    elif set(sk) != set(core) or any(set(sk[n]) != set(core[n]) for n in core):
+        fails.append(('skin_graph', 'skin_graph is not the bond graph with terminal atoms pruned repeatedly (2-core of the full bond graph)',
+                      {n: sorted(v) for n, v in sk.items()}))
+    rg = read('rings_graph')
+    if rg is not _RAISED:
+        rb_all, ra_all = O.ring_bonds(gall)
+        rge = {frozenset((a, b)) for a, bs in rg.items() for b in bs}
+        if set(rg) != ra_all or not rb_all <= rge or any(len(e) != 2 or not gall.has_edge(*e) for e in rge):
+            fails.append(('rings_graph', 'rings_graph: atoms are not exactly the atoms on a cycle of the full bond graph, or a cycle bond is '
+                          'missing, or a listed bond does not exist', {n: sorted(v) for n, v in rg.items()}))
 
-    try:
-        rings = m.sssr
-    except Exception as e:
-        fails.append(('sssr-raises', f'sssr raised {type(e).__name__}: {e}', repr(e)))
+    rings = read('sssr')
+    if rings is _RAISED:
         return fails, None
     rings = [tuple(r) for r in rings]
     sizes = sorted(len(r) for r in rings)
@@ -133,29 +177,45 @@ def evaluate(m, exp_sizes=None, recalc=True):
     for i, r in enumerate(rings):
         for n in r:
             through.setdefault(n, []).append(i)
-    ar = m.atoms_rings
-    if set(ar) != set(through) or any(Counter(map(tuple, ar[n])) != Counter(rings[i] for i in through[n]) for n in through):
+    ar = read('atoms_rings')
+    if ar is _RAISED:
+        pass
+    elif set(ar) != set(through) or any(Counter(map(tuple, ar[n])) != Counter(rings[i] for i in through[n]) for n in through):
         fails.append(('atoms_rings', 'atoms_rings is not the list of sssr rings through each ring atom', {k: list(v) for k, v in ar.items()}))
-    ars = m.atoms_rings_sizes
-    if set(ars) != set(through) or any(set(ars[n]) != {len(rings[i]) for i in through[n]} for n in through):
+    ars = read('atoms_rings_sizes')
+    if ars is _RAISED:
+        pass
+    elif set(ars) != set(through) or any(set(ars[n]) != {len(rings[i]) for i in through[n]} for n in through):
         fails.append(('atoms_rings_sizes', 'atoms_rings_sizes is not the set of sizes of sssr rings through each ring atom',
                       {k: sorted(v) for k, v in ars.items()}))
 
     # aromatic rings ---------------------------------------------------------------------------------------------------------------
     def all_arom(r):
         return all(orders.get(frozenset(e)) == 4 for e in zip(r, r[1:] + r[:1]))
-    aro = [tuple(r) for r in m.aromatic_rings]
-    if any(r not in rings for r in aro) or any(not all_arom(r) for r in aro if r in rings) or \
+    aro = read('aromatic_rings')
+    aro = aro if aro is _RAISED else [tuple(r) for r in aro]
+    if aro is _RAISED:
+        pass
+    elif any(r not in rings for r in aro) or any(not all_arom(r) for r in aro if r in rings) or \
             Counter(aro) != Counter(r for r in rings if ring_vector(r, eidx) is not None and all_arom(r)):
         fails.append(('aromatic_rings', 'aromatic_rings is not the sub-list of sssr rings whose bonds are all aromatic', aro))
 
     # marks ------------------------------------------------------------------------------------------------------------------------
+    if not marks:
+        return fails, sizes
     if recalc:
         try:
             m.calc_labels()
         except Exception as e:
             fails.append(('calc_labels-raises', f'calc_labels raised {type(e).__name__}: {e}', repr(e)))
             return fails, sizes
+    # marks that were never set (the attribute is only created by calc_labels): a mark that cannot be read does not agree with anything
+    unset_a = [n for n, a in m.atoms() if not hasattr(a, 'in_ring') or not hasattr(a, 'ring_sizes')]      # public properties: AttributeError
+    unset_b = [(a, b, int(bd)) for a, b, bd in m.bonds() if not hasattr(bd, 'in_ring')]                     # of the unset slot -> False
+    if unset_a or unset_b:
+        fails.append(('marks-unset', 'in_ring / ring_sizes were never calculated for some atoms / bonds of a molecule returned by a public call',
+                      {'atoms': unset_a[:10], 'bonds': unset_b[:10]}))
+        return fails, sizes
     rb, ra = O.ring_bonds(g0)
     bad_a = []
     for n, a in m.atoms():
@@ -341,6 +401,21 @@ def _work_smiles(item):
                 continue
             reported.add(c)
             viols.append((f'{c}:{ident}', f'{c}: {what} [{name} trial {t}]', {'contract': c, 'source': name, 'trial': t, **wit}, nat))
+    # the marks of a molecule that went through pack() / unpack() (unpack recalculates them unless skip_labels_calculation is passed)
+    if _unpack_ready() and max(nodes, default=0) <= 4095:
+        from chython.containers import MoleculeContainer
+        try:
+            data = m.pack()
+        except ValueError:      # documented format restrictions (isotope shift, hydrogens, neighbours): not a C06 verdict
+            data = None
+        if data is not None:
+            u = MoleculeContainer.unpack(data)
+            fails, _ = evaluate(u, exp, recalc=False)
+            ncases += 1
+            gaps['unpacked'] += 1
+            for c, what, nat in _split(fails, gap)[0]:
+                viols.append((f'{c}:{ident}@unpack', f'{c}: {what} [{name} after unpack(pack())]',
+                              {'contract': c, 'source': name, 'input': text if tag == 'smiles' else name, 'as_parsed': True, 'unpack': True}, nat))
     if len(sizes_seen) > 1 and gap:
         gaps[f'hits:{gap.split("=")[0]}:sssr-sizes-numbering'] += 1
         gaps['hit-graphs:' + ident + f' sizes vary with numbering {sorted(sizes_seen)}'] = 1
@@ -351,6 +426,237 @@ def _work_smiles(item):
     keys = [ident] if mu else []
     samples = [{'molecule': name, 'rings': mu, 'oracle_ring_sizes': exp, 'aromatic_rings': len(m.aromatic_rings)}] if mu else []
     return ncases, keys, samples, viols, dict(gaps)
+
+
+# ---------------------------------------------------------------------------------------------------------------------------------
+# coverage audit: molecules built through the incremental public API and edited afterwards (bounded/d06_extra.py)
+def _start(spec):
+    """start molecule of an edit script: ('graph', atoms, bonds, elements) through the public API, ('smiles', text, normalise)"""
+    from bounded import d06_extra as X
+    if spec[0] == 'graph':
+        return X.mol_public(spec[1], [tuple(b) for b in spec[2]], spec[3])
+    from chython import smiles
+    from bounded import domains as D
+    m = smiles(spec[1])
+    return D.norm(m) if spec[2] else m
+
+
+class _Collector:
+    """judge of the sessions of one work item: gap rule, family keys for marks kept across renumbering, one report per key"""
+
+    def __init__(self, ident, spec):
+        self.ident, self.spec = ident, spec
+        self.viols, self.reported = [], set()
+        self.gaps = Counter()
+        self.ring_seen = False
+        self.evals = 0
+
+    def evaluate(self, m, marks):
+        fails, sizes = evaluate(m, None, recalc=False, marks=marks)
+        self.evals += 1
+        self.gaps['variants'] += 1
+        if sizes:
+            self.ring_seen = True
+        return fails
+
+    def judge(self, s, m, fails, where, stale):
+        import json
+        from bounded import d06_extra as X
+        from oracles import o06_gaps as O
+        from oracles import o06_unique as U
+        g0 = O.graphs(m)[0]
+        gap = O.gap(g0)
+        if gap:
+            self.gaps['inputs:' + gap.split('=')[0]] += 1
+        fails, excused = _split(fails, gap)
+        for c, what, nat in excused:
+            self.gaps[f'hits:{gap.split("=")[0]}:{c}'] += 1
+            self.gaps['hit-graphs:' + self.ident + ' ' + what.split(' [')[0]] = 1
+        for c, what, nat in fails:
+            key = f'{c}:{self.ident}'
+            if stale and c in X.STALE_SENSITIVE and (gap is not None or U.mcb_unique(g0) is False):
+                # independent predicate on the input: the marks were calculated before `stale` (remap / union keep them) AND the ring set
+                # of this graph legitimately depends on the numbering (more relevant cycles than basis members, or a recorded gap)
+                key = f'{c}@{stale}:numbering-dependent-sssr'
+            if key in self.reported:
+                continue
+            self.reported.add(key)
+            atoms, bonds = X.table(m)
+            self.viols.append((key, f'{c}: {what} [{self.ident} {where}; now {len(atoms)} atoms, bonds {_estr(bonds)}]',
+                               {'contract': c, 'start': self.spec, 'ops': json.loads(json.dumps(s.root)), 'where': where,
+                                'atoms_now': atoms, 'bonds_now': [list(b) for b in bonds]}, nat))
+
+    def library_raised(self, s, e, where):
+        import json
+        key = f'sssr-raises:{self.ident}'
+        if key not in self.reported:
+            self.reported.add(key)
+            self.viols.append((key, f'sssr-raises: the ring code raised {type(e).__name__}: {e} [{self.ident} {where}]',
+                               {'contract': 'sssr-raises', 'start': self.spec, 'ops': json.loads(json.dumps(s.root)) if s else [], 'where': where},
+                               repr(e)))
+
+
+def _session(col, spec, r=None):
+    """(session, None) or (None, reason) when the start molecule cannot be built outside the ring code"""
+    from bounded import d06_extra as X
+    try:
+        m = _start(spec)
+    except Exception as e:
+        if X.through_ring_code(e):
+            col.library_raised(None, e, 'while building the start molecule through the public API')
+            return None, 'ring code raised'
+        return None, f'{type(e).__name__}: {e}'
+    s = X.Session(m, col.evaluate, col.judge, r)
+    s.allow_aromatize = spec[0] == 'smiles'
+    s.calls = spec[0] == 'smiles' and len(spec) > 3 and bool(spec[3])
+    return s, None
+
+
+def _drive(col, s, fn):
+    """run fn(s); Abort -> counted, library exception from the ring code -> violation; returns the abort reason or None"""
+    from bounded import d06_extra as X
+    try:
+        fn(s)
+    except X.Abort as e:
+        return str(e)
+    except AssertionError:
+        raise
+    except Exception as e:
+        if not X.through_ring_code(e):
+            raise
+        col.library_raised(s, e, f'after {len(s.root)} log entries')
+    return None
+
+
+def _work_script(item):
+    """one seeded edit script"""
+    from bounded import domains as D
+    from bounded import d06_extra as X
+    name, spec, n_ops = item
+    ident = 'edit:' + name
+    col = _Collector(ident, spec)
+    r = D.rnd('b06:' + ident)
+    s, why = _session(col, spec, r)
+    if s is None:
+        return 0, [], [], col.viols, {'skipped:' + ident: why} if not col.viols else {}
+    aborted = _drive(col, s, lambda ss: X.random_script(ss, n_ops))
+    gp = dict(col.gaps)
+    if aborted:
+        gp['aborted:' + ident] = aborted
+    for k in s.kinds:
+        gp['op:' + k] = 1
+    keys = [ident] if col.ring_seen else []
+    samples = [{'script': name, 'start': spec[0], 'ops': s.ops_done, 'evaluations': col.evals, 'kinds': sorted(s.kinds)}] if col.ring_seen else []
+    return col.evals, keys, samples, col.viols, gp
+
+
+def _work_grid(item):
+    """exhaustive single edits of one small base molecule, each outside a transaction / committed / rolled back, with the caches
+    warm (everything read before the edit) or as the build left them; plus remap, copy x keep flags, union and substructure variants"""
+    import itertools
+    from bounded import d06_extra as X
+    name, atoms, bonds = item
+    ident = 'grid:' + name
+    spec = ['graph', list(atoms), [list(b) for b in bonds], None]
+    col = _Collector(ident, spec)
+    gp = Counter()
+    scripts = []
+    edits = X.single_edits(list(atoms), [tuple(b) for b in bonds])
+    for op in edits:
+        for warm in (True, False):
+            pre = [['eval']] if warm else []
+            scripts.append(pre + [op, ['eval']])
+            scripts.append(pre + [['tx', False, [op, ['eval']]], ['eval']])
+            scripts.append(pre + [['tx', True, [op, ['eval']]], ['eval']])
+    first = edits[0] if edits else ['add_atom', 'C', None]
+    n = len(atoms)
+    rev = [[a, b] for a, b in zip(atoms, reversed(atoms))]
+    shift = [[a, 4090 + 3 * i] for i, a in enumerate(atoms)]
+    for mp in (rev, shift, shift[:1]):
+        if mp:
+            scripts.append([['eval'], ['remap', mp], ['eval']])
+            scripts.append([['remap', mp], ['eval']])
+            scripts.append([['eval'], ['tx', True, [['remap', mp], ['eval']]], ['eval']])
+    for ks, kc in itertools.product((False, True), repeat=2):
+        for warm in (True, False):
+            scripts.append(([['eval']] if warm else []) + [['copy', ks, kc], ['eval'], first, ['eval']])
+            scripts.append(([['eval']] if warm else []) + [['flush', ks, kc], ['eval'], first, ['eval']])
+    lo = min(atoms, default=1)
+    hi = max(atoms, default=0)
+    for frag in ('ring3', 'ring5-coord'):
+        k = X.FRAGMENTS[frag][0]
+        over, disj = list(range(lo, lo + k)), list(range(hi + 2, hi + 2 + k))
+        for numbers, remap in ((over, True), (disj, True), (disj, False)):
+            if numbers is over and not atoms:
+                continue
+            for copy in (True, False):
+                scripts.append([['eval'], ['union', frag, numbers, remap, copy, 'union'], ['eval'], first, ['eval']])
+        scripts.append([['union', frag, over if atoms else disj, True, True, 'or'], ['eval']])
+        scripts.append([['eval'], ['union', frag, over if atoms else disj, True, False, 'ior'], ['eval']])
+    if n >= 2:
+        for k in range(1, n):
+            for i, sub in enumerate(itertools.combinations(atoms, k)):
+                how = ('substructure', 'and', 'sub')[(i + k) % 3]
+                arg = bool(i % 2) if how == 'substructure' else None
+                scripts.append(([['eval']] if i % 2 else []) + [['substructure', list(sub), how, arg], ['eval']])
+        scripts.append([['split'], ['eval']])
+        scripts.append([['augmented_substructures', [atoms[0]], 3], ['eval']])
+        scripts.append([['substructure', [atoms[-1]], 'augmented', 1], ['eval']])
+    nscripts = 0
+    for ops in scripts:
+        s, why = _session(col, spec)
+        if s is None:
+            return 0, [], [], col.viols, {'skipped:' + ident: why} if not col.viols else {}
+        aborted = _drive(col, s, lambda ss: X.run_ops(ss, ops))
+        nscripts += 1
+        if aborted:
+            gp['aborted:' + ident + ' ' + str(ops)[:80]] = aborted
+        for k in s.kinds:
+            gp['op:' + k] = 1
+    gp.update(col.gaps)
+    keys = [ident] if col.ring_seen else []
+    samples = [{'grid': name, 'bonds': _estr(bonds), 'scripts': nscripts, 'evaluations': col.evals}] if col.ring_seen else []
+    return col.evals, keys, samples, col.viols, dict(gp)
+
+
+
+def _work_callgrid(item):
+    """one SMILES start x every standardize-family call x {all observables read before the call, caches as the parser left them}"""
+    from bounded import d06_extra as X
+    name, smi = item
+    ident = 'calls:' + name
+    spec = ['smiles', smi, False, True]
+    col = _Collector(ident, spec)
+    gp = Counter()
+    for cname, kw in X.CALLS:
+        for warm in (True, False):
+            ops = ([['eval']] if warm else []) + [['call', cname, dict(kw)], ['eval']]
+            s, why = _session(col, spec)
+            if s is None:
+                return 0, [], [], col.viols, {'skipped:' + ident: why} if not col.viols else {}
+            aborted = _drive(col, s, lambda ss: X.run_ops(ss, ops))
+            if aborted:
+                gp['aborted:' + ident + ' ' + cname] = aborted
+            for k in s.kinds:
+                gp['op:' + k] = 1
+    gp.update(col.gaps)
+    keys = [ident] if col.ring_seen else []
+    return col.evals, keys, [], col.viols, dict(gp)
+
+
+_UNPACK = []
+
+
+def _unpack_ready():
+    """pack / unpack need the de-cythonised extension modules; when they cannot be injected the pack part is skipped and stated"""
+    if not _UNPACK:
+        try:
+            env.setup(pyx=True)
+            _UNPACK.append(True)
+        except Exception as e:      # translator failure: outside C06
+            _UNPACK.append(False)
+            _UNPACK.append(f'{type(e).__name__}: {e}')
+    return _UNPACK[0]
 
 
 _SDF = None
@@ -383,6 +689,12 @@ def _work(item):
     old = signal.signal(signal.SIGALRM, on_alarm)
     signal.alarm(budget)
     try:
+        if item[0] == 'script':
+            return _work_script(item[1:])
+        if item[0] == 'grid':
+            return _work_grid(item[1:])
+        if item[0] == 'callgrid':
+            return _work_callgrid(item[1:])
         return _work_smiles(item[1:]) if item[0] == 'mol' else _work_graph(item[1:])
     except _Watchdog:
         _TIMEOUTS[0] += 1
@@ -475,6 +787,101 @@ def bounded(run):
         files += 1
     run.bound(f'corpus: seeded sample of {n_cor} SMILES of pach/lipophilicity.csv (kekule+thiele normal form) as parsed + 2 rebuilt renumberings; '
               f'test/cycle.sdf: {files} molecules as read + 2 rebuilt renumberings')
+    # trivial inputs: the empty molecule; isolated atoms only (the single atom is the first atlas graph)
+    for name, k in (('empty', 0), ('two-isolated-atoms', 2)):
+        items.append(('graph', name, list(range(k)), [], 3, 0, False, None))
+        dom.append('named')
+    run.bound('trivial: the empty molecule and two isolated atoms (every observable must return its empty value)')
+
+    # ---- coverage audit: public incremental building + edits (bounded/d06_extra.py) -----------------------------------------------
+    def start_spec(name, g, r):
+        nodes = sorted(g.nodes)
+        edges = sorted(tuple(sorted(e)) for e in g.edges)
+        vs = list(_variants(name, nodes, edges, r, 1, True))
+        vname, oedges = r.choice(vs)
+        if r.random() < .5:      # numbers with gaps / offsets / not in order of insertion
+            atoms, bonds, _ = _labelled(nodes, oedges, r)
+        else:
+            atoms, bonds = [v + 1 for v in nodes], [(a + 1, b + 1, o) for a, b, o in oedges]
+        return ['graph', atoms, [list(b) for b in bonds], [r.choice(X.ELEMENTS) for _ in atoms]]
+
+    from bounded import d06_extra as X
+    n_ops = 14 if thorough else 10
+    r = D.rnd('b06:scripts')
+    n_scr = 0
+    for g in D.atlas(7 if thorough else 6):
+        if g.number_of_nodes() >= 3:
+            items.append(('script', f'{g.name}', start_spec(g.name, g, r), n_ops))
+            dom.append('edit-script')
+            n_scr += 1
+    n_sa = 2500 if thorough else 170
+    for i in range(n_sa):
+        if i % 10 == 9:
+            g, ops = G.macrocycle(r, 12, 30)
+        else:
+            g, ops = G.ring_assembly(r, 6, 26)
+            if r.random() < .2:
+                g2, ops2 = G.ring_assembly(r, 3, 10)
+                g = G.disjoint([g, g2])
+                ops = ops + ['|'] + ops2
+        name = f'sasm{i}[' + ' '.join(ops) + ']'
+        items.append(('script', name, start_spec(name, g, r), n_ops))
+        dom.append('edit-script')
+    n_sc = 1200 if thorough else 120
+    for i, smi in enumerate(D.corpus_sample(n_sc, 'b06:script-corpus')):
+        items.append(('script', 'smi:' + smi, ['smiles', smi, bool(i % 2)], n_ops))
+        dom.append('edit-script')
+    n_std = 0
+    salts = ('', '', '.[Na+]', '.[K+].[Cl-]', '.N', '.Cl', '.CC(=O)O[Na]', '.OC(=O)C(F)(F)F', '.[Mg]', '.CC(O)=O')
+    for i, smi in enumerate(D.corpus_sample(400 if thorough else 60, 'b06:script-std')):
+        smi += r.choice(salts)
+        items.append(('script', f'std{i}:' + smi, ['smiles', smi, bool(i % 2), True], n_ops))
+        dom.append('edit-script')
+        n_std += 1
+    for k, smi in enumerate(STD_RING_INPUTS):
+        items.append(('callgrid', f'stdfix{k}:' + smi, smi))
+        dom.append('edit-grid')
+        for j in range(6 if thorough else 2):
+            items.append(('script', f'stdfix{k}.{j}:' + smi, ['smiles', smi, False, True], 6))
+            dom.append('edit-script')
+            n_std += 1
+    run.bound(f'standardize-family grid (exhaustive): each of the {len(STD_RING_INPUTS)} hand-written inputs x each of the {len(X.CALLS)} calls x '
+              '{all observables read before the call, caches as the parser left them}')
+    run.bound(f'standardize-family scripts: {n_std} SMILES starts ({len(STD_RING_INPUTS)} hand-written ring systems on which a standardization rule turns a ring bond into a '
+              'coordinate bond or back / splits a metal salt / removes metals, acids, explicit hydrogens; corpus SMILES with a seeded counter-ion, metal or acid '
+              f'component) where 45 % of the operations are one of the {len(X.CALLS)} public calls that choose themselves which ring caches to keep '
+              '(standardize, canonicalize(keep_kekule), neutralize, standardize_charges, fix_resonance, remove_coordinate_bonds(keep_to_terminal), '
+              'explicify / implicify_hydrogens, remove_metals, split_metal_salts, remove_acids, clean_isotopes, clean_stereo, kekule, thiele(fix_tautomers)), '
+              'mixed with the edits above; a call that raises outside the ring code ends the script (state undefined)')
+    run.bound(f'edit scripts (seeded): {n_scr} atlas graphs (3-{7 if thorough else 6} atoms), {n_sa} ring assemblies / macrocycles (20 % two components) with a seeded '
+              f'bond-order variant (plain / coordinate / aromatic ring) and seeded elements, half of them numbered with gaps / offsets up to 10^6 / '
+              f'shuffled insertion, built through the PUBLIC incremental API (marks recalculated after every call); {n_sc} corpus SMILES as parsed '
+              f'(every second one in kekule+thiele normal form); each followed by {n_ops} seeded operations: add_atom (library / explicit / large / '
+              'hole-filling numbers), add_bond (orders 1 2 4 8, ring-closing or joining), delete_bond, delete_atom, transactions of 1-4 edits '
+              '(45 % rolled back by an exception), remap (permutation / shift / partial), copy x keep_sssr x keep_components, union / | / |= with '
+              f'{len(X.FRAGMENTS)} fragments (overlapping numbers + remap, disjoint), substructure / & / - / augmented_substructure(s) / split, '
+              'flush_cache(keep_*), fix_structure, kekule / thiele (SMILES starts only), partial reads of the cached observables; contracts '
+              'evaluated (70 %) or caches partly read (15 %) after each operation; inside a transaction everything but the marks; every molecule '
+              'left behind by copy / union / substructure is re-read at the end')
+    n_grid = 0
+    for g in D.atlas(6 if thorough else 5):
+        if g.number_of_nodes() < 2:
+            continue
+        nodes = sorted(g.nodes)
+        edges = sorted(tuple(sorted(e)) for e in g.edges)
+        rr = D.rnd('b06:grid:' + g.name)
+        for vname, oedges in list(_variants(g.name, nodes, edges, rr, 1, False))[:2]:
+            offs = 1 if vname == 'plain' else 3
+            items.append(('grid', f'{g.name}:{vname}', [offs * (v + 1) for v in nodes], [(offs * (a + 1), offs * (b + 1), o) for a, b, o in oedges]))
+            dom.append('edit-grid')
+            n_grid += 1
+    run.bound(f'edit grid (exhaustive): {n_grid} bases = every connected graph with 2-{6 if thorough else 5} atoms, plain and one seeded coordinate-bond variant '
+              '(numbers 3,6,9,...), built through the public API; EVERY single edit (delete each bond, delete each atom, add a bond of order 1 and of '
+              'order 8 between every non-bonded pair, add an atom) x {outside a transaction, committed, rolled back} x {all observables read '
+              'before the edit, caches as the build left them}; 3 remaps (reversal, shift beyond 4090 with gaps, one atom) read before/after and '
+              'rolled back; copy and flush_cache with all 4 keep flag combinations followed by an edit; union with 2 fragments x {overlapping + remap, '
+              'disjoint +/- remap} x copy True/False, |, |=; every proper atom subset through substructure / & / -; split; augmented substructures')
+
     items.append(('graph', 'fixed-gapA-18', None, None, 5, 0, False, FIXED_GAP_A))
     dom.append('fixed')
     run.bound('fixed: the 18-atom gap-A witness (theta core 3/5/5 inside a fused system) in its failing labelling + 4 seeded renumberings, run every time')
@@ -494,13 +901,28 @@ def bounded(run):
                'bond.in_ring for non-coordinate bonds must equal "not a bridge", atom.in_ring "has a non-bridge bond": a cycle-space basis covers '
                'exactly the non-bridge bonds')
 
+    _unpack_ready()      # inject once, before the pool forks
+    if not _UNPACK[0]:
+        run.notes['unpack_skipped'] = _UNPACK[1]
     # heavy items first for a balanced pool
-    order = sorted(range(len(items)), key=lambda i: -(len(items[i][3] or ()) if items[i][0] == 'graph' else 30))
+    def weight(it):
+        if it[0] == 'graph':
+            return len(it[3] or ())
+        if it[0] == 'grid':
+            return 40 * len(it[2])
+        if it[0] == 'script':
+            return 60
+        if it[0] == 'callgrid':
+            return 100
+        return 30
+    order = sorted(range(len(items)), key=lambda i: -weight(items[i]))
     res = pmap(_work, [items[i] for i in order], chunksize=4)
     stats = {d: {'molecules': 0, 'graph_variants': 0, 'graph_variants_inside_gap': Counter(), 'excused_contract_failures': Counter(), 'graph_variants_with_excused_failures': 0}
-             for d in ('exhaustive', 'random', 'named', 'corpus', 'cycle.sdf', 'fixed')}
+             for d in ('exhaustive', 'random', 'named', 'corpus', 'cycle.sdf', 'fixed', 'edit-script', 'edit-grid')}
     examples = []
     skipped, timeouts = [], []
+    aborted, op_kinds = [], Counter()
+    n_unpacked = [0]
     shown, reported, suppressed = Counter(), Counter(), Counter()
     for i, (n, keys, samples, viols, gp) in zip(order, res):
         it, d = items[i], dom[i]
@@ -526,10 +948,16 @@ def bounded(run):
                 skipped.append((k[8:], v))
             elif k.startswith('timeout:'):
                 timeouts.append(k[8:])
+            elif k.startswith('aborted:'):
+                aborted.append((k[8:], v))
+            elif k.startswith('op:'):
+                op_kinds[k[3:]] += 1
             elif k.startswith('hit-graphs:'):
                 hit.add(k[11:].split(' ')[0])
                 if len(examples) < 12 or d == 'fixed':
                     examples.append(f'[{d}] ' + k[11:][:300])
+            elif k == 'unpacked':
+                n_unpacked[0] += v
             elif k == 'variants':
                 st['graph_variants'] += v
             elif k.startswith('inputs:'):
@@ -545,11 +973,23 @@ def bounded(run):
         print(f'C06 bounded: {len(timeouts)} work items did not return within {ITEM_BUDGET_S}s, e.g. {timeouts[0]}', flush=True)
         if not run.violations:
             raise RuntimeError(f'{len(timeouts)} work items timed out (never mapped to a violation), e.g. {timeouts[0]}')
+    run.notes['unpack'] = {'molecules_unpacked': n_unpacked[0]}
+    run.bound(f'pack/unpack: every corpus / cycle.sdf molecule that pack() accepts ({n_unpacked[0]} in this run) read back with unpack(): marks as found')
+    n_edit = sum(1 for d in dom if d in ('edit-script', 'edit-grid'))
+    run.notes['edit_scripts'] = {'work_items': n_edit, 'work_items_using_operation': dict(sorted(op_kinds.items())),
+                                 'aborted_outside_C06': {'count': len(aborted), 'examples': aborted[:5],
+                                                         'why': 'kekule / thiele refused the edited molecule or an edit raised outside the ring code: the script stops there'}}
+    need = {'add_atom', 'add_bond', 'delete_bond', 'delete_atom', 'remap', 'copy', 'union', 'substructure', 'split', 'flush', 'tx-commit', 'tx-rollback',
+            'add_bond@tx', 'delete_bond@tx', 'delete_atom@tx', 'kekule', 'thiele', 'fix_structure', 'augmented_substructures'}
+    if need - set(op_kinds):      # harness self-check: a domain that silently lost an operation is a checker crash, never a pass
+        raise RuntimeError(f'edit operations never executed: {sorted(need - set(op_kinds))}')
+    if len(aborted) > n_edit // 4 and not run.violations:
+        raise RuntimeError(f'{len(aborted)} of {n_edit} edit work items aborted outside C06, e.g. {aborted[0]}')
     if skipped:
         run.notes['skipped_corpus_inputs'] = {'count': len(skipped), 'examples': skipped[:5],
                                               'why': 'the library raised while parsing / normalising the SMILES (outside C06)'}
-        if len(skipped) > (n_cor + files) // 10 and not run.violations:
-            raise RuntimeError(f'{len(skipped)} of {n_cor + files} corpus / file molecules could not be built, e.g. {skipped[0]}')
+        if len(skipped) > (n_cor + files + n_sc) // 10 and not run.violations:
+            raise RuntimeError(f'{len(skipped)} of {n_cor + files + n_sc} corpus / file molecules could not be built, e.g. {skipped[0]}')
     total_hits = sum(s['graph_variants_with_excused_failures'] for s in stats.values())
     fx = stats['fixed']
     run.notes['gap_hits'] = {
@@ -571,10 +1011,21 @@ def replay(rec):
     from bounded import domains as D
     w = rec.get('witness') or {}
     c = w.get('contract')
+    if 'ops' in w and 'start' in w:      # edit script: rebuild the start molecule, re-run the concrete operations
+        from bounded import d06_extra as X
+        col = _Collector('replay', w['start'])
+        s, why = _session(col, w['start'])
+        if s is None:
+            return not col.viols and False
+        _drive(col, s, lambda ss: X.run_ops(ss, w['ops']))
+        print('native:', [(v[0], v[1][:200]) for v in col.viols])
+        return not any(v[2]['contract'] == c for v in col.viols)
     if 'bonds' in w and 'atoms' in w:
         ms = [(_mol(w['atoms'], [tuple(b) for b in w['bonds']]), True)]
     elif w.get('as_parsed') and str(w.get('source', '')).startswith('smi:'):
         ms = [(D.parse(w['input']), False)]
+        if w.get('unpack') and _unpack_ready():
+            ms = [(type(ms[0][0]).unpack(ms[0][0].pack()), False)]
     elif 'source_bonds' in w:      # numbering-dependence witness: re-run the renumberings
         import networkx as nx
         edges = []
